@@ -285,6 +285,8 @@ pub struct Knobs {
     /// The search runs on a clone of the built searcher (ripgrep clones its
     /// searcher once per worker thread).
     pub cloned: bool,
+    /// The sink is handed to the searcher inside a Box (the forwarding impl of Sink for Box<S>).
+    pub boxed_sink: bool,
 }
 
 pub fn build_searcher(cfg: &Cfg, knobs: &Knobs) -> Searcher {
